@@ -67,8 +67,8 @@ func leanCodes(s string) string {
 	return leanNatList(vals)
 }
 
-// intLit evaluates an integer or character literal.
-func intLit(e ast.Expr) (int, bool) {
+// pcIntLit evaluates an integer or character literal.
+func pcIntLit(e ast.Expr) (int, bool) {
 	switch te := e.(type) {
 	case *ast.BasicLit:
 		switch te.Kind {
@@ -83,10 +83,10 @@ func intLit(e ast.Expr) (int, bool) {
 			return int([]rune(s)[0]), true
 		}
 	case *ast.ParenExpr:
-		return intLit(te.X)
+		return pcIntLit(te.X)
 	case *ast.UnaryExpr:
 		if te.Op == token.SUB {
-			n, ok := intLit(te.X)
+			n, ok := pcIntLit(te.X)
 			return -n, ok
 		}
 	}
@@ -141,7 +141,7 @@ func (c *pcCtx) cond(e ast.Expr) (string, error) {
 
 // num translates an integer-valued operand of a comparison.
 func (c *pcCtx) num(e ast.Expr) (string, error) {
-	if n, ok := intLit(e); ok && n >= 0 {
+	if n, ok := pcIntLit(e); ok && n >= 0 {
 		return strconv.Itoa(n), nil
 	}
 	s := exprStr(e)
@@ -184,7 +184,7 @@ func (c *pcCtx) appendCall(call *ast.CallExpr) (string, bool, error) {
 		}
 	}
 	for _, a := range call.Args[1:] {
-		if n, ok := intLit(a); ok && n >= 0 && n < 256 {
+		if n, ok := pcIntLit(a); ok && n >= 0 && n < 256 {
 			lit = append(lit, n)
 			continue
 		}
@@ -445,7 +445,7 @@ func (c *pcCtx) caseCond(tag string, list []ast.Expr) (string, error) {
 			alts = append(alts, cd)
 			continue
 		}
-		n, ok := intLit(e)
+		n, ok := pcIntLit(e)
 		if !ok || n < 0 {
 			return "", c.errf("case value not understood: %s", exprStr(e))
 		}
@@ -484,8 +484,8 @@ func hasJump(list []ast.Stmt) bool {
 	return found
 }
 
-// findFunc returns the declaration of a function, or of the method of a receiver type.
-func findFunc(f *ast.File, recv, name string) *ast.FuncDecl {
+// pcFindFunc returns the declaration of a function, or of the method of a receiver type.
+func pcFindFunc(f *ast.File, recv, name string) *ast.FuncDecl {
 	for _, d := range f.Decls {
 		fd, ok := d.(*ast.FuncDecl)
 		if !ok || fd.Name.Name != name {
@@ -562,7 +562,7 @@ func genPrinterCode(repo string) (string, error) {
 		if err != nil {
 			return err
 		}
-		fd := findFunc(f, recv, name)
+		fd := pcFindFunc(f, recv, name)
 		if fd == nil || fd.Body == nil {
 			return fmt.Errorf("%s: func %s %s not found", file, recv, name)
 		}
@@ -703,7 +703,7 @@ func genPrinterCode(repo string) (string, error) {
 	if err != nil {
 		return "", err
 	}
-	app := findFunc(prGo, "*Printer", "Append")
+	app := pcFindFunc(prGo, "*Printer", "Append")
 	if app == nil {
 		return "", fmt.Errorf("printer.go: func (p *Printer) Append not found")
 	}
@@ -793,7 +793,7 @@ func genPrinterCode(repo string) (string, error) {
 	b.WriteString("]\n\n")
 
 	// ---- caseName -----------------------------------------------------------------------------
-	cn := findFunc(prGo, "*Printer", "caseName")
+	cn := pcFindFunc(prGo, "*Printer", "caseName")
 	if cn == nil {
 		return "", fmt.Errorf("printer.go: caseName not found")
 	}
@@ -1053,7 +1053,7 @@ const rxCodeDoc = "0 = time (`@…`), 1 = intRx, 2 = decimalRegex, 3 = eFloatReg
 
 // pcNumberToken: the regexes symbol.go `numberToken` tries.
 func pcNumberToken(f *ast.File) (string, error) {
-	fd := findFunc(f, "", "numberToken")
+	fd := pcFindFunc(f, "", "numberToken")
 	if fd == nil {
 		return "", fmt.Errorf("symbol.go: numberToken not found")
 	}
@@ -1105,7 +1105,7 @@ func pcNumberToken(f *ast.File) (string, error) {
 
 // pcResolveToken: the order of the cases of code.go `resolveToken` and what each float case builds.
 func pcResolveToken(f *ast.File) (string, error) {
-	fd := findFunc(f, "*reader", "resolveToken")
+	fd := pcFindFunc(f, "*reader", "resolveToken")
 	if fd == nil {
 		return "", fmt.Errorf("code.go: resolveToken not found")
 	}
@@ -1196,7 +1196,7 @@ func nodeTextList(l []ast.Stmt) string {
 // pcFloatReadably: SingleFloat / DoubleFloat `Readably`, the readable branch:
 // (format verb, bit size, precision threshold, exponent marker, lower-cased first).
 func pcFloatReadably(f *ast.File, file, recv, lean string) (string, error) {
-	fd := findFunc(f, recv, "Readably")
+	fd := pcFindFunc(f, recv, "Readably")
 	if fd == nil {
 		return "", fmt.Errorf("%s: Readably not found", file)
 	}
@@ -1226,7 +1226,7 @@ func pcFloatReadably(f *ast.File, file, recv, lean string) (string, error) {
 }
 
 func pcLongReadably(f *ast.File) (string, error) {
-	fd := findFunc(f, "*LongFloat", "Readably")
+	fd := pcFindFunc(f, "*LongFloat", "Readably")
 	if fd == nil {
 		return "", fmt.Errorf("longfloat.go: Readably not found")
 	}
